@@ -259,7 +259,24 @@ def async_spec_funcs(c):
         if isinstance(v, VElem):
             return VBool(f_isawaitable(v.t))
         return VBool(False)
-    return {'builtin_gen.sleep': gen_sleep, 'builtin_asyncio.sleep': gen_sleep, 'builtin_gen.isawaitable': isawaitable,
+    def narrower(pred_name):
+        # inspect.iscoroutine / gen.is_future / asyncio.isfuture ...: each recognises SOME awaitables only (an object with
+        # __await__ that is neither a coroutine nor a Future is awaitable all the same)
+        pred = z3.Function(pred_name, sym.Elem, z3.BoolSort())
+
+        def f(I, args, kwargs, fr):
+            v = args[0]
+            if isinstance(v, VAw):
+                return VBool(z3.Bool(sym.fresh_name(pred_name + '_of_aw')))
+            if isinstance(v, VElem):
+                I.st.assume(z3.Implies(pred(v.t), f_isawaitable(v.t)))
+                return VBool(pred(v.t))
+            return VBool(False)
+        return f
+    return {'builtin_inspect.iscoroutine': narrower('is_coroutine'), 'builtin_asyncio.iscoroutine': narrower('is_coroutine'),
+            'builtin_inspect.isawaitable': isawaitable,
+            'builtin_gen.is_future': narrower('is_future'), 'builtin_asyncio.isfuture': narrower('is_future'),
+            'builtin_gen.sleep': gen_sleep, 'builtin_asyncio.sleep': gen_sleep, 'builtin_gen.isawaitable': isawaitable,
             'builtin_time': builtin_time, 'unpack_elem': unpack_elem, 'xs_of': xs_of, 'mds_of': mds_of, 'pair': pair}
 
 
